@@ -251,10 +251,10 @@ class DependencyTransformation(Transformation):
                 # Add the renamed but ignored items to the block list because we won't be able to
                 # find them as dependencies under their new name anymore
                 item.config['block'] = as_tuple(item.block) + tuple(
-                    new_name for name in item.ignore if name in matched_keys
+                    new_name for name in item.ignore if name.lower() in matched_keys
                 )
                 item.config['ignore'] = tuple(
-                    new_name if name in matched_keys else name
+                    new_name if name.lower() in matched_keys else name
                     for name in item.ignore
                 )
 
